@@ -210,6 +210,25 @@ def corr(ctx, drv):
         ca = np.asarray(p["true_a"]) + rng.uniform(-1, 1, 2) * s_
         cb = np.asarray(p["true_b"]) + rng.uniform(-1, 1, 2) * s_
         z = np.asarray(p["zero"], dtype=np.float64)
+        if k % 5 == 4:
+            # a shallow lattice: vectors enclosing an angle one or two degrees off min_angle, candidates on the other side of it,
+            # in every orientation (both vectors near the negative x axis, where polar angles jump from pi to -pi, included)
+            lim = float(np.pi / 10)
+            true_ang = lim + np.deg2rad(float(rng.choice([-1.0, 1.0, -2.0])))
+            cand_ang = lim + np.deg2rad(float(rng.choice([1.0, -1.0, 1.5])))
+            phi = np.deg2rad(float(rng.choice([172.0, 176.0, 180.0, 184.0, -176.0, 90.0, 0.0, float(rng.uniform(-180, 180))])))
+            L = float(rng.uniform(30, 45))
+
+            def vec(ang):       # (y, x) of a vector of length L at polar angle `ang`
+                return L * np.array([np.sin(ang), np.cos(ang)])
+            ta, tb = vec(phi - true_ang / 2), vec(phi + true_ang / 2)
+            ca, cb = vec(phi - cand_ang / 2), vec(phi + cand_ang / 2)
+            z = rng.uniform(100, 120, 2)
+            pts = np.array([z + i * ta + j * tb for i in (-1, 0, 1) for j in (-1, 0, 1)])
+            elev = np.ones(len(pts))
+            p = dict(p, pts=pts, elev=elev, zero=z, tolerance=3.0, min_match=3, min_angle=lim, min_delta=0.0,
+                     max_delta=float("inf"), kind="shallow")
+            ctx.count("tumble_shallow")
         m = matcher_of(p)
         corr_ = grm.CorrelationResult(pts, pts, np.ones(len(pts)), elev)
         sel = grm.PointSelection(corr_, selector=elev >= 0.1)
